@@ -11,8 +11,8 @@ web.HTTPException is still saved onto that response), the cookie storage is conf
 gear.session.setup_aiohttp_session does, the OAuth flow client and the database are fakes holding one
 existing user.  Handlers are awaited synchronously (the fakes never suspend).
 
-Step 2/3 depend on S only through the cookie jar left by step 1, so their outcome is memoised per jar
-content (an exact reduction: identical request => identical run of deterministic handlers).
+Steps 2/3 depend on S only through the cookie jar, so each such request is memoised on (path, query, jar,
+database state) -- an exact reduction: identical request => identical run of deterministic handlers.
 """
 import urllib.parse
 
@@ -94,6 +94,17 @@ class FakeDb:
         raise HarnessError(f'unexpected SQL in the C29 flow: {sql!r}')
 
 
+def make_storage(base_cls, **kw):
+    """The shim's cookie storage with the Set-Cookie / Cookie header (de)serialisation short-circuited: the harness
+    browser only needs the cookie value, so it is handed over on the response object (`_vf_set_cookie`)."""
+
+    class HarnessCookieStorage(base_cls):
+        def save_cookie(self, response, cookie_data, *, max_age=None):
+            response._vf_set_cookie = (self._cookie_name, cookie_data or None)
+
+    return HarnessCookieStorage(**kw)
+
+
 class Flow:
     def __init__(self):
         import aiohttp_session
@@ -109,11 +120,20 @@ class Flow:
         self.A, self.web = A, web
         dc = get_deploy_config()
         # as gear.session.setup_aiohttp_session (the secret key file does not exist here)
-        self.storage = aiohttp_session.cookie_storage.EncryptedCookieStorage(
-            b'0' * 32, cookie_name=get_global_config()['cloud'] + '_' + dc.auth_session_cookie_name(), secure=True, httponly=True,
+        self.storage = make_storage(
+            aiohttp_session.cookie_storage.EncryptedCookieStorage, secret_key=b'0' * 32, cookie_name=get_global_config()['cloud'] + '_' + dc.auth_session_cookie_name(), secure=True, httponly=True,
             samesite='Lax', domain=dc._domain, path=dc._base_path or '/', max_age=max_age())
         self.mw = aiohttp_session.session_middleware(self.storage)
         self.db = FakeDb()
+        # session ids are random in production; a constant keeps the run deterministic (the fake database does not care)
+        import gear.auth_utils as gau
+
+        class _Secrets:
+            @staticmethod
+            def token_bytes(n):
+                return b'\x07' * n
+
+        gau.secrets = _Secrets
         self.app = {A.AppKeys.FLOW_CLIENT: FakeFlow(), A.AppKeys.DB: self.db}
         self.handlers = {'/login': A.login, '/signup': A.signup, '/oauth2callback': A.callback, '/creating': A.creating_account}
         self.memo = {}
@@ -129,34 +149,46 @@ class Flow:
             resp = e
         except Exception as e:  # noqa: BLE001  an unhandled exception is a 500 without session saving
             return f'error:{type(e).__name__}', None
-        for name, morsel in resp.cookies.items():
-            if morsel.value == '' or str(morsel['max-age']) == '0':
-                jar.pop(name, None)
+        if resp.cookies:
+            raise HarnessError('a handler set a cookie directly; the harness browser only models the session cookie')
+        sc = getattr(resp, '_vf_set_cookie', None)
+        if sc is not None:
+            if sc[1] is None:
+                jar.pop(sc[0], None)
             else:
-                jar[name] = morsel.value
+                jar[sc[0]] = sc[1]
         loc = resp.headers.get('Location') if 300 <= resp.status < 400 else None
         return resp.status, loc
 
-    def continuation(self, jar, scenario):
-        """Steps 2 (and 3) for the given cookie jar; memoised per jar content."""
-        key = (scenario, tuple(sorted(jar.items())))
+    def get_memo(self, path, query, jar):
+        """self.get, memoised on the complete request (path, query, cookie jar) and the database state: an exact
+        reduction, the handlers being deterministic functions of those."""
+        key = (path, tuple(sorted(query.items())), tuple(sorted(jar.items())), self.db.user_state)
         hit = self.memo.get(key)
         if hit is not None:
             self.stats['continuations-memoised'] += 1
-            return hit
+            st, loc, newjar = hit
+            jar.clear()
+            jar.update(newjar)
+            return st, loc
         self.stats['continuations-run'] += 1
+        st, loc = self.get(path, query, jar)
+        if len(self.memo) > 200000:
+            self.memo.clear()
+        self.memo[key] = (st, loc, dict(jar))
+        return st, loc
+
+    def continuation(self, jar, scenario):
+        """Steps 2 (and 3) for the given cookie jar."""
         jar = dict(jar)
         out = []
         self.db.user_state = 'active' if scenario == 'active' else 'creating'
-        st, loc = self.get('/oauth2callback', {'code': 'c0de', 'state': 'st4te'}, jar)
+        st, loc = self.get_memo('/oauth2callback', {'code': 'c0de', 'state': 'st4te'}, jar)
         out.append(('/oauth2callback', st, loc))
         if scenario == 'creating':
             self.db.user_state = 'active'
-            st, loc = self.get('/creating', {}, jar)
+            st, loc = self.get_memo('/creating', {}, jar)
             out.append(('/creating', st, loc))
-        if len(self.memo) > 200000:
-            self.memo.clear()
-        self.memo[key] = out
         return out
 
     def run(self, route, s, is_bad=None):
